@@ -10,7 +10,8 @@
 use anchor_lang::solana_program::{instruction::Instruction, pubkey::Pubkey, system_program};
 use gmsol_store::states::{Market, RoleKey, Seed, Store};
 use gmsol_utils::token_config::UpdateTokenConfigParams;
-use h_runtime::runtime::{keys::key, market as mk, spl, store as st, Account, World};
+use h_runtime::runtime::{keys::key, market as mk, spl, store as st, Account, ExecResult, World};
+use h_runtime::world2::{self, R2};
 use h_runtime::util::{Args, Sink};
 use serde_json::json;
 use std::collections::HashMap;
@@ -50,19 +51,39 @@ struct Env {
     code1: [u8; 8],
     /// (class label, signer key)
     classes: Vec<(String, Pubkey)>,
+    /// world R2 (markets with liquidity, pending / completed actions, positions); None if it could not be built
+    r2: Option<R2Env>,
 }
 
-type Build = Box<dyn Fn(&Env, Pubkey) -> (Instruction, Vec<Pubkey>)>;
+#[derive(Clone)]
+struct R2Env {
+    r2: R2,
+    u1: Pubkey,
+    u2: Pubkey,
+    recv: Pubkey,
+    dep1: Pubkey,
+    wd1: Pubkey,
+    sw1: Pubkey,
+    sh1: Pubkey,
+    inc1: Pubkey,
+    dec1: Pubkey,
+}
+
+type Run = Box<dyn Fn(&Env, &mut World, Pubkey) -> ExecResult>;
+type Prep = Box<dyn Fn(&Env, &mut World, Pubkey)>;
 
 struct Case {
     name: &'static str,
     world: &'static str,
     /// owner-gated instructions: the key that owns / is named by the target account
     owner: Option<Pubkey>,
-    build: Build,
+    /// per-signer preparation with OPEN instructions (escrow accounts, event buffers ..), not measured
+    prep: Option<Prep>,
+    /// builds the instruction for the signer under test and executes it
+    run: Run,
 }
 
-fn must(what: &str, r: h_runtime::runtime::ExecResult) {
+fn must(what: &str, r: ExecResult) {
     assert!(r.ok, "{what} failed: {} {:?}\n{}", r.err_name, r.runtime_error, r.logs.join("\n"));
 }
 
@@ -254,7 +275,7 @@ impl Env {
             ),
         );
         worlds.insert("base", w.clone());
-        let env0 = Env { worlds: HashMap::new(), store, admin, m: m.clone(), token_map2, mint_x, mint_y, u1, code1, classes: classes.clone() };
+        let env0 = Env { worlds: HashMap::new(), store, admin, m: m.clone(), token_map2, mint_x, mint_y, u1, code1, classes: classes.clone(), r2: None };
         // authority hand-over pending
         {
             let mut x = w.clone();
@@ -347,6 +368,7 @@ impl Env {
                 eprintln!("note: timelock initialize_config bootstrap failed: {} {:?}", r.err_name, r.runtime_error);
             }
         }
+        extra_worlds(&env0, &mut worlds, &classes, creator);
         // measurement worlds: the store authority holds no role any more
         for x in worlds.values_mut() {
             for r in &all_roles {
@@ -357,7 +379,21 @@ impl Env {
             empty.airdrop(k, 1_000_000_000_000);
         }
         worlds.insert("empty", empty);
-        Env { worlds, ..env0 }
+        // world R2 (agentK's multi-market world): if it cannot be brought up (e.g. because the access check
+        // of one of ITS set-up instructions was changed) its cases are skipped, everything else is measured
+        let classes2 = classes.clone();
+        let roles2: Vec<String> = all_roles.iter().map(|r| r.to_string()).collect();
+        let r2 = match std::panic::catch_unwind(move || build_r2(&classes2, &roles2)) {
+            Ok((r2env, r2worlds)) => {
+                worlds.extend(r2worlds);
+                Some(r2env)
+            }
+            Err(_) => {
+                eprintln!("note: world R2 could not be built; its instructions are not measured in this run");
+                None
+            }
+        };
+        Env { worlds, r2, ..env0 }
     }
 }
 
@@ -431,7 +467,34 @@ fn ix_tl_init_config(e: &Env, authority: Pubkey) -> Instruction {
 
 macro_rules! case {
     ($v:expr, $name:expr, $world:expr, $owner:expr, |$e:ident, $a:ident| $body:expr) => {
-        $v.push(Case { name: $name, world: $world, owner: $owner, build: Box::new(move |$e: &Env, $a: Pubkey| $body) });
+        $v.push(Case {
+            name: $name,
+            world: $world,
+            owner: $owner,
+            prep: None,
+            run: Box::new(move |$e: &Env, w: &mut World, $a: Pubkey| {
+                let (ix, extra): (Instruction, Vec<Pubkey>) = $body;
+                let mut signers = vec![$a];
+                signers.extend(extra);
+                w.execute(&ix, &signers)
+            }),
+        });
+    };
+}
+
+/// run-style case: the closure executes the instruction itself (world R2 helpers)
+macro_rules! caser {
+    ($v:expr, $name:expr, $world:expr, $owner:expr, |$e:ident, $w:ident, $a:ident| $body:expr) => {
+        $v.push(Case { name: $name, world: $world, owner: $owner, prep: None, run: Box::new(move |$e: &Env, $w: &mut World, $a: Pubkey| $body) });
+    };
+    ($v:expr, $name:expr, $world:expr, $owner:expr, prep |$pe:ident, $pw:ident, $pa:ident| $prep:expr, |$e:ident, $w:ident, $a:ident| $body:expr) => {
+        $v.push(Case {
+            name: $name,
+            world: $world,
+            owner: $owner,
+            prep: Some(Box::new(move |$pe: &Env, $pw: &mut World, $pa: Pubkey| $prep)),
+            run: Box::new(move |$e: &Env, $w: &mut World, $a: Pubkey| $body),
+        });
     };
 }
 
@@ -883,10 +946,1393 @@ fn cases(env: &Env) -> Vec<Case> {
     v
 }
 
+
+// =====================================================================================================
+// World R2: execution / maintenance / user-owned instructions with valid account sets
+
+fn nonce(tag: u8) -> [u8; 32] {
+    let mut n = [0u8; 32];
+    n[0] = tag;
+    n[31] = 0xC1;
+    n
+}
+
+fn prepare_trade_buffer(w: &mut World, store: &Pubkey, r2: &R2, authority: &Pubkey, index: u16) -> ExecResult {
+    w.execute(
+        &st::ix(
+            gmsol_store::accounts::PrepareTradeEventBuffer { authority: *authority, store: *store, event: r2.trade_buffer(authority, index), system_program: system_program::ID },
+            gmsol_store::instruction::PrepareTradeEventBuffer { index },
+        ),
+        &[*authority],
+    )
+}
+
+/// feeds of the market's tokens as the oracle-consuming instructions expect them (sorted by token)
+fn feed_metas(r2: &R2, m: &world2::Mkt) -> Vec<anchor_lang::solana_program::instruction::AccountMeta> {
+    let mut tokens = vec![r2.toks[m.index].mint, r2.toks[m.long].mint, r2.toks[m.short].mint];
+    tokens.sort();
+    tokens.dedup();
+    tokens.iter().map(|t| anchor_lang::solana_program::instruction::AccountMeta::new_readonly(r2.tok_by_mint(t).unwrap().feed, false)).collect()
+}
+
+fn build_r2(classes: &[(String, Pubkey)], all_roles: &[String]) -> (R2Env, HashMap<&'static str, World>) {
+    const USD: u128 = 100_000_000_000_000_000_000;
+    let mut w = World::new();
+    let r2 = R2::build_funded(&mut w, 2);
+    let (store, keeper) = (r2.store, r2.keeper);
+    let (u1, u2) = (r2.users[0], r2.users[1]);
+    // every role of the pool exists; one signer per role (Store methods on the account bytes)
+    for r in all_roles {
+        let _ = st::fab_enable_role(&mut w, &store, r);
+    }
+    for (label, k) in classes {
+        w.airdrop(k, 1_000_000_000_000);
+        if let Some(r) = label.strip_prefix("role:") {
+            assert!(st::fab_grant_role(&mut w, &store, k, r), "Store::grant {r}");
+        }
+    }
+    // the class "admin" is R2's store authority
+    let classes: Vec<(String, Pubkey)> = classes.iter().map(|(l, k)| (l.clone(), if l == "admin" { r2.admin } else { *k })).collect();
+    // every signer is a user with funds, market tokens of M1 and a trade event buffer (all open instructions)
+    let (m1, m2) = (r2.mkts[0].clone(), r2.mkts[1].clone());
+    let (ia, ib) = (m1.long, m1.short);
+    for (i, (_, k)) in classes.iter().enumerate() {
+        w.airdrop(k, 1_000_000_000_000);
+        let _ = st::prepare_user(&mut w, &store, k);
+        for t in r2.toks.clone().iter().filter(|t| !t.synthetic) {
+            let (ata, r) = spl::create_ata(&mut w, &keeper, k, &t.mint);
+            must("ata", r);
+            must("mint_to", spl::mint_to(&mut w, &t.mint, &ata, &keeper, 10_000_000));
+        }
+        for m in r2.mkts.clone() {
+            must("mt ata", spl::create_ata(&mut w, &keeper, k, &m.market_token).1);
+        }
+        let stt = r2.flow_deposit(&mut w, &mut world2::NoRec, k, 0, &nonce(200 + i as u8), Some((ia, 1_000)), Some((ib, 100_000)), &[], &[], 0);
+        assert_eq!(stt, Some(1), "seed deposit of a signer");
+        must("trade buffer", prepare_trade_buffer(&mut w, &store, &r2, k, 0));
+    }
+    must("trade buffer keeper", prepare_trade_buffer(&mut w, &store, &r2, &keeper, 0));
+    // the fee receiver is moved away from the store authority
+    let recv = key("owner-recv");
+    w.airdrop(&recv, 1_000_000_000_000);
+    must(
+        "transfer_receiver",
+        w.execute(
+            &st::ix(gmsol_store::accounts::TransferReceiver { authority: r2.admin, store, next_receiver: recv }, gmsol_store::instruction::TransferReceiver {}),
+            &[r2.admin],
+        ),
+    );
+    must(
+        "accept_receiver",
+        w.execute(&st::ix(gmsol_store::accounts::AcceptReceiver { next_receiver: recv, store }, gmsol_store::instruction::AcceptReceiver {}), &[recv]),
+    );
+    // u2 opens a position in M1 (long, long collateral); some swap volume so that fees accrue
+    let stt = r2.flow_position(&mut w, &mut world2::NoRec, &u2, 0, &nonce(1), true, true, true, r2.units(ia, 500), 1000 * USD);
+    assert_eq!(stt, Some(1), "open position of u2");
+    let _ = r2.flow_swap(&mut w, &mut world2::NoRec, &u1, &nonce(2), ia, ib, r2.units(ia, 100), &[0], 0);
+    // pending actions of u1 (and a decrease order of u2)
+    let mt = r2.balance(&w, &r2.ata(&u1, &m1.market_token));
+    must("create_deposit", r2.create_deposit(&mut w, &u1, &m1, &nonce(11), Some((ia, 1_000)), Some((ib, 100_000)), 0, &[], &[], world2::EXEC_LAMPORTS));
+    must("create_withdrawal", r2.create_withdrawal(&mut w, &u1, &m1, &nonce(12), mt / 10, ia, ib, 0, 0, &[], &[], world2::EXEC_LAMPORTS));
+    must("create_swap_order", r2.create_swap_order(&mut w, &u1, &m1, &nonce(13), ia, ib, 1_000, 0, &[0], world2::EXEC_LAMPORTS));
+    must("create_shift", r2.create_shift(&mut w, &u1, &m1, &m2, &nonce(14), mt / 10, 0, world2::EXEC_LAMPORTS));
+    must("create increase order", r2.create_position_order(&mut w, &u1, &m1, &nonce(15), true, true, true, r2.units(ia, 200), 400 * USD));
+    must("create decrease order", r2.create_position_order(&mut w, &u2, &m1, &nonce(16), false, true, true, 0, 300 * USD));
+    let env = R2Env {
+        dep1: r2.deposit_pda(&u1, &nonce(11)),
+        wd1: r2.withdrawal_pda(&u1, &nonce(12)),
+        sw1: r2.order_pda(&u1, &nonce(13)),
+        sh1: r2.shift_pda(&u1, &nonce(14)),
+        inc1: r2.order_pda(&u1, &nonce(15)),
+        dec1: r2.order_pda(&u2, &nonce(16)),
+        u1,
+        u2,
+        recv,
+        r2: r2.clone(),
+    };
+    r2.tick(&mut w);
+    r2.prepare_keeper_accounts(&mut w, &u2, &m1, true, true);
+    r2.prepare_keeper_accounts(&mut w, &u1, &m1, true, true);
+    let mut worlds: HashMap<&'static str, World> = HashMap::new();
+    worlds.insert("r2", w.clone());
+    // the same actions executed by the keeper, not yet closed
+    {
+        let mut x = w.clone();
+        must("execute_deposit", r2.execute_deposit(&mut x, &keeper, &env.dep1, true, world2::EXEC_FEE));
+        must("execute_withdrawal", r2.execute_withdrawal(&mut x, &keeper, &env.wd1, true, world2::EXEC_FEE));
+        must("execute_swap_order", r2.execute_swap_order(&mut x, &keeper, &env.sw1, true, world2::EXEC_FEE));
+        must("execute_shift", r2.execute_shift(&mut x, &keeper, &env.sh1, true, world2::EXEC_FEE));
+        worlds.insert("r2_done", x);
+    }
+    // u1's (still empty) position closed by its owner: the pending increase order refers to no position
+    {
+        let mut x = w.clone();
+        let pos = r2.position_pda(&u1, &m1, &r2.toks[m1.long].mint, true);
+        let r = x.execute(
+            &st::ix(gmsol_store::accounts::CloseEmptyPosition { owner: u1, store, position: pos }, gmsol_store::instruction::CloseEmptyPosition {}),
+            &[u1],
+        );
+        if r.ok {
+            worlds.insert("r2_nopos", x);
+        } else {
+            eprintln!("note: close_empty_position set-up failed: {}", r.err_name);
+        }
+    }
+    // the position of u2 becomes liquidatable / auto-deleveragable (as in R2::cut_scenario)
+    {
+        let mut x = w.clone();
+        let p = r2.current_price(&x, &r2.toks[m1.index]);
+        r2.set_token_price(&mut x, m1.index, p * 11 / 10);
+        let mut l = x.clone();
+        must("config liq", r2.update_market_config(&mut l, &m1, "min_collateral_factor_for_liquidation", 2 * USD));
+        r2.tick(&mut l);
+        r2.prepare_keeper_accounts(&mut l, &u2, &m1, true, true);
+        worlds.insert("r2_liq", l);
+        must("config adl 1", r2.update_market_config(&mut x, &m1, "min_pnl_factor_after_long_adl", 0));
+        must("config adl 2", r2.update_market_config(&mut x, &m1, "max_pnl_factor_for_long_adl", 100_000_000_000_000));
+        r2.tick(&mut x);
+        worlds.insert("r2_adl_pre", x.clone());
+        let r = r2.flow_update_adl(&mut x, &mut world2::NoRec, 0, true);
+        must("update_adl_state", r);
+        r2.tick(&mut x);
+        r2.prepare_keeper_accounts(&mut x, &u2, &m1, true, true);
+        worlds.insert("r2_adl", x);
+    }
+    (env, worlds)
+}
+
+/// what a keeper prepares (with OPEN instructions) before a position cut signed by `a`
+fn prep_cut(e: &Env, w: &mut World, a: Pubkey, n: &[u8; 32]) {
+    let x = e.r2.as_ref().unwrap();
+    let m = x.r2.mkts[0].clone();
+    let order = x.r2.order_pda(&a, n);
+    for t in [m.long, m.short] {
+        let _ = w.execute(&world2::ata_ix(&a, &order, &x.r2.toks[t].mint), &[a]);
+    }
+}
+
+fn r2_cases(v: &mut Vec<Case>, env: &Env) {
+    use gmsol_store::accounts as A;
+    use gmsol_store::instruction as I;
+    let Some(x0) = env.r2.clone() else { return };
+    let sys = system_program::ID;
+    let (u1, u2, recv) = (x0.u1, x0.u2, x0.recv);
+    macro_rules! x {
+        ($e:ident) => {
+            $e.r2.as_ref().unwrap()
+        };
+    }
+    // ---- keeper-gated execution
+    caser!(v, "store.execute_deposit", "r2", None, |e, w, a| x!(e).r2.execute_deposit(w, &a, &x!(e).dep1, true, world2::EXEC_FEE));
+    caser!(v, "store.execute_withdrawal", "r2", None, |e, w, a| x!(e).r2.execute_withdrawal(w, &a, &x!(e).wd1, true, world2::EXEC_FEE));
+    caser!(v, "store.execute_shift", "r2", None, |e, w, a| x!(e).r2.execute_shift(w, &a, &x!(e).sh1, true, world2::EXEC_FEE));
+    caser!(v, "store.execute_increase_or_swap_order_v2", "r2", None, |e, w, a| {
+        let ix = x!(e).r2.execute_position_order_ix(w, &a, &x!(e).inc1, true);
+        w.execute(&ix, &[a])
+    });
+    caser!(v, "store.execute_decrease_order_v2", "r2", None, |e, w, a| {
+        let ix = x!(e).r2.execute_position_order_ix(w, &a, &x!(e).dec1, true);
+        w.execute(&ix, &[a])
+    });
+    caser!(v, "store.liquidate", "r2_liq", None, prep |e, w, a| prep_cut(e, w, a, &nonce(30)), |e, w, a| {
+        let mut r = x!(e).r2.clone();
+        r.keeper = a;
+        let m = r.mkts[0].clone();
+        let pos = r.position_pda(&x!(e).u2, &m, &r.toks[m.long].mint, true);
+        let ix = r.cut_ix(w, &x!(e).u2, &m, &pos, true, &nonce(30), None);
+        w.execute(&ix, &[a])
+    });
+    caser!(v, "store.auto_deleverage", "r2_adl", None, prep |e, w, a| prep_cut(e, w, a, &nonce(31)), |e, w, a| {
+        let mut r = x!(e).r2.clone();
+        r.keeper = a;
+        let m = r.mkts[0].clone();
+        let pos = r.position_pda(&x!(e).u2, &m, &r.toks[m.long].mint, true);
+        let size = r.open_position(w, &x!(e).u2, 0, true, true).map(|p| p.1).unwrap_or(0);
+        let ix = r.cut_ix(w, &x!(e).u2, &m, &pos, true, &nonce(31), Some(size));
+        w.execute(&ix, &[a])
+    });
+    caser!(v, "store.update_adl_state", "r2_adl_pre", None, |e, w, a| {
+        let r = &x!(e).r2;
+        let m = r.mkts[0].clone();
+        let mut ix = st::ix(
+            A::UpdateAdlState { authority: a, store: r.store, token_map: r.token_map, oracle: r.oracle, market: m.market, chainlink_program: None },
+            I::UpdateAdlState { is_long: true },
+        );
+        ix.accounts.extend(feed_metas(r, &m));
+        w.execute(&ix, &[a])
+    });
+    caser!(v, "store.update_closed_state", "r2", None, |e, w, a| {
+        let r = &x!(e).r2;
+        let m = r.mkts[0].clone();
+        let mut ix = st::ix(A::UpdateClosedState { authority: a, store: r.store, token_map: r.token_map, oracle: r.oracle, market: m.market }, I::UpdateClosedState {});
+        ix.accounts.extend(feed_metas(r, &m));
+        w.execute(&ix, &[a])
+    });
+    caser!(v, "store.update_fees_state", "r2", None, |e, w, a| {
+        let r = &x!(e).r2;
+        let m = r.mkts[0].clone();
+        let mut ix = st::ix(
+            A::UpdateFeesState {
+                authority: a,
+                store: r.store,
+                token_map: r.token_map,
+                oracle: r.oracle,
+                market: m.market,
+                event_authority: st::event_authority(&gmsol_store::ID),
+                program: gmsol_store::ID,
+            },
+            I::UpdateFeesState {},
+        );
+        ix.accounts.extend(feed_metas(r, &m));
+        w.execute(&ix, &[a])
+    });
+    caser!(v, "store.cancel_order_if_no_position", "r2_nopos", None, |e, w, a| {
+        let r = &x!(e).r2;
+        let m = r.mkts[0].clone();
+        let pos = r.position_pda(&x!(e).u1, &m, &r.toks[m.long].mint, true);
+        w.execute(&st::ix(A::CancelOrderIfNoPosition { authority: a, store: r.store, order: x!(e).inc1, position: pos }, I::CancelOrderIfNoPosition {}), &[a])
+    });
+    caser!(v, "store.close_empty_claimable_account", "r2", None, |e, w, a| {
+        let r = &x!(e).r2;
+        let (mint, ts) = (r.toks[r.mkts[0].long].mint, w.clock().0);
+        let account = r.claimable_pda(w, &mint, &x!(e).u2, ts);
+        w.execute(
+            &st::ix(
+                A::CloseEmptyClaimableAccount { authority: a, store: r.store, mint, owner: x!(e).u2, account, system_program: sys, token_program: spl_token::ID },
+                I::CloseEmptyClaimableAccount { timestamp: ts },
+            ),
+            &[a],
+        )
+    });
+    // ---- market maintenance
+    caser!(v, "store.market_transfer_in", "r2", None, |e, w, a| {
+        let r = &x!(e).r2;
+        let (m, t) = (r.mkts[0].clone(), r.toks[r.mkts[0].long].clone());
+        w.execute(
+            &st::ix(
+                A::MarketTransferIn {
+                    authority: a,
+                    store: r.store,
+                    from_authority: x!(e).u1,
+                    market: m.market,
+                    from: spl::ata(&x!(e).u1, &t.mint),
+                    vault: t.vault,
+                    token_program: spl_token::ID,
+                    event_authority: st::event_authority(&gmsol_store::ID),
+                    program: gmsol_store::ID,
+                },
+                I::MarketTransferIn { amount: 10 },
+            ),
+            &[a, x!(e).u1],
+        )
+    });
+    caser!(v, "store.claim_fees_from_market", "r2", Some(recv), |e, w, a| {
+        let r = &x!(e).r2;
+        r.claim_fees(w, &a, &r.mkts[0].clone(), &r.toks[r.mkts[0].long].clone())
+    });
+    // ---- user-owned actions: close (owner or ORDER_KEEPER once completed), update, keep flag
+    caser!(v, "store.close_deposit", "r2_done", Some(u1), |e, w, a| {
+        let r = &x!(e).r2;
+        let m = r.mkts[0].clone();
+        r.close_deposit(w, &a, &x!(e).u1, &x!(e).dep1, &m, Some(r.toks[m.long].mint), Some(r.toks[m.short].mint))
+    });
+    caser!(v, "store.close_withdrawal", "r2_done", Some(u1), |e, w, a| {
+        let r = &x!(e).r2;
+        let m = r.mkts[0].clone();
+        r.close_withdrawal(w, &a, &x!(e).u1, &x!(e).wd1, &m, r.toks[m.long].mint, r.toks[m.short].mint)
+    });
+    caser!(v, "store.close_order_v2", "r2_done", Some(u1), |e, w, a| {
+        let r = &x!(e).r2;
+        let m = r.mkts[0].clone();
+        r.close_swap_order(w, &a, &x!(e).u1, &x!(e).sw1, r.toks[m.long].mint, r.toks[m.short].mint)
+    });
+    caser!(v, "store.close_shift", "r2_done", Some(u1), |e, w, a| {
+        let r = &x!(e).r2;
+        r.close_shift(w, &a, &x!(e).u1, &x!(e).sh1, &r.mkts[0].clone(), &r.mkts[1].clone())
+    });
+    caser!(v, "store.update_order_v2", "r2", Some(u1), |e, w, a| {
+        let r = &x!(e).r2;
+        w.execute(
+            &st::ix(
+                A::UpdateOrderV2 {
+                    owner: a,
+                    store: r.store,
+                    market: r.mkts[0].market,
+                    order: x!(e).inc1,
+                    callback_authority: None,
+                    callback_program: None,
+                    callback_shared_data_account: None,
+                    callback_partitioned_data_account: None,
+                    event_authority: st::event_authority(&gmsol_store::ID),
+                    program: gmsol_store::ID,
+                },
+                I::UpdateOrderV2 {
+                    params: gmsol_store::states::order::UpdateOrderParams {
+                        size_delta_value: None,
+                        acceptable_price: Some(1),
+                        trigger_price: None,
+                        min_output: None,
+                        valid_from_ts: None,
+                    },
+                },
+            ),
+            &[a],
+        )
+    });
+    caser!(v, "store.set_should_keep_position_account", "r2", Some(u2), |e, w, a| w.execute(
+        &st::ix(A::SetShouldKeepPositionAccount { owner: a, order: x!(e).dec1 }, I::SetShouldKeepPositionAccount { keep: true }),
+        &[a]
+    ));
+    caser!(v, "store.close_empty_position", "r2", Some(u1), |e, w, a| {
+        let r = &x!(e).r2;
+        let m = r.mkts[0].clone();
+        // the (still empty) position prepared together with u1's pending increase order
+        let pos = r.position_pda(&x!(e).u1, &m, &r.toks[m.long].mint, true);
+        w.execute(&st::ix(A::CloseEmptyPosition { owner: a, store: r.store, position: pos }, I::CloseEmptyPosition {}), &[a])
+    });
+    // ---- open by design: everybody creates / prepares their own accounts
+    caser!(v, "store.create_deposit", "r2", None, |e, w, a| {
+        let r = &x!(e).r2;
+        let m = r.mkts[0].clone();
+        r.create_deposit(w, &a, &m, &nonce(40), Some((m.long, 500)), Some((m.short, 50_000)), 0, &[], &[], world2::EXEC_LAMPORTS)
+    });
+    caser!(v, "store.create_withdrawal", "r2", None, |e, w, a| {
+        let r = &x!(e).r2;
+        let m = r.mkts[0].clone();
+        let mt = r.balance(w, &r.ata(&a, &m.market_token));
+        r.create_withdrawal(w, &a, &m, &nonce(41), mt / 2, m.long, m.short, 0, 0, &[], &[], world2::EXEC_LAMPORTS)
+    });
+    caser!(v, "store.create_order_v2", "r2", None, |e, w, a| {
+        let r = &x!(e).r2;
+        let m = r.mkts[0].clone();
+        r.create_swap_order(w, &a, &m, &nonce(42), m.long, m.short, 500, 0, &[0], world2::EXEC_LAMPORTS)
+    });
+    caser!(v, "store.create_shift", "r2", None, |e, w, a| {
+        let r = &x!(e).r2;
+        let mt = r.balance(w, &r.ata(&a, &r.mkts[0].market_token));
+        r.create_shift(w, &a, &r.mkts[0].clone(), &r.mkts[1].clone(), &nonce(43), mt / 2, 0, world2::EXEC_LAMPORTS)
+    });
+    caser!(v, "store.prepare_position", "r2", None, |e, w, a| {
+        let r = &x!(e).r2;
+        let m = r.mkts[2].clone();
+        let params = gmsol_store::ops::order::CreateOrderParams {
+            kind: gmsol_utils::order::OrderKind::MarketIncrease,
+            decrease_position_swap_type: None,
+            execution_lamports: world2::EXEC_LAMPORTS,
+            swap_path_length: 0,
+            initial_collateral_delta_amount: 100,
+            size_delta_value: 1,
+            is_long: true,
+            is_collateral_long: true,
+            min_output: None,
+            trigger_price: None,
+            acceptable_price: None,
+            should_unwrap_native_token: false,
+            valid_from_ts: None,
+        };
+        let position = r.position_pda(&a, &m, &r.toks[m.long].mint, true);
+        w.execute(&st::ix(A::PreparePosition { owner: a, store: r.store, market: m.market, position, system_program: sys }, I::PreparePosition { params }), &[a])
+    });
+    caser!(v, "store.prepare_trade_event_buffer", "r2", None, |e, w, a| prepare_trade_buffer(w, &x!(e).r2.store, &x!(e).r2, &a, 1));
+    caser!(v, "store.prepare_associated_token_account", "r2", None, |e, w, a| {
+        let r = &x!(e).r2;
+        let (owner, mint) = (key("someone"), r.toks[0].mint);
+        w.execute(
+            &st::ix(
+                A::PrepareAssociatedTokenAccount {
+                    payer: a,
+                    owner,
+                    mint,
+                    account: spl::ata(&owner, &mint),
+                    system_program: sys,
+                    token_program: spl_token::ID,
+                    associated_token_program: spl_associated_token_account::ID,
+                },
+                I::PrepareAssociatedTokenAccount {},
+            ),
+            &[a],
+        )
+    });
+    caser!(v, "store.initialize_oracle", "r2", None, prep |_e, w, a| {
+        let o = key(&format!("new-oracle-{a}"));
+        w.set_account(o, Account { owner: gmsol_store::ID, lamports: 1_000_000_000, data: vec![0; 8 + std::mem::size_of::<gmsol_store::states::Oracle>()], executable: false });
+    }, |e, w, a| w.execute(
+        &st::ix(
+            A::InitializeOracle { payer: a, authority: a, store: x!(e).r2.store, oracle: key(&format!("new-oracle-{a}")), system_program: sys },
+            I::InitializeOracle {}
+        ),
+        &[a]
+    ));
+    caser!(v, "store.initialize_callback_authority", "r2", None, |_e, w, a| {
+        let ca = Pubkey::find_program_address(&[gmsol_callback::CALLBACK_AUTHORITY_SEED], &gmsol_store::ID).0;
+        w.execute(&st::ix(A::InitializeCallbackAuthority { payer: a, callback_authority: ca, system_program: sys }, I::InitializeCallbackAuthority {}), &[a])
+    });
+    let _ = u2;
+}
+
+// =====================================================================================================
+// Further worlds on the base world: GT exchange, virtual inventories, timelock buffers, LP, competition
+
+fn gt_vault(w: &World, store: &Pubkey) -> (Pubkey, i64) {
+    let s: Store = w.account_data(store).unwrap();
+    let window = s.gt().exchange_time_window();
+    let idx = w.clock().0 / window as i64;
+    (
+        Pubkey::find_program_address(
+            &[gmsol_store::states::gt::GtExchangeVault::SEED, store.as_ref(), &idx.to_le_bytes(), &window.to_le_bytes()],
+            &gmsol_store::ID,
+        )
+        .0,
+        idx,
+    )
+}
+fn gt_exchange(vault: &Pubkey, owner: &Pubkey) -> Pubkey {
+    Pubkey::find_program_address(&[gmsol_store::states::gt::GtExchange::SEED, vault.as_ref(), owner.as_ref()], &gmsol_store::ID).0
+}
+fn treasury_vault_config(config: &Pubkey, index: u16) -> Pubkey {
+    Pubkey::find_program_address(&[gmsol_treasury::states::TreasuryVaultConfig::SEED, config.as_ref(), &index.to_le_bytes()], &gmsol_treasury::ID).0
+}
+fn gt_bank(tvc: &Pubkey, vault: &Pubkey) -> Pubkey {
+    Pubkey::find_program_address(&[gmsol_treasury::states::GtBank::SEED, tvc.as_ref(), vault.as_ref()], &gmsol_treasury::ID).0
+}
+fn lp_global() -> Pubkey {
+    Pubkey::find_program_address(&[gmsol_liquidity_provider::GLOBAL_STATE_SEED], &gmsol_liquidity_provider::ID).0
+}
+fn lp_controller(mint: &Pubkey, index: u64) -> Pubkey {
+    Pubkey::find_program_address(
+        &[gmsol_liquidity_provider::LP_TOKEN_CONTROLLER_SEED, lp_global().as_ref(), mint.as_ref(), &index.to_le_bytes()],
+        &gmsol_liquidity_provider::ID,
+    )
+    .0
+}
+fn competition_pda(payer: &Pubkey, start: i64) -> Pubkey {
+    Pubkey::find_program_address(&[gmsol_competition::states::COMPETITION_SEED, payer.as_ref(), &start.to_le_bytes()], &gmsol_competition::ID).0
+}
+fn participant_pda(competition: &Pubkey, trader: &Pubkey) -> Pubkey {
+    Pubkey::find_program_address(&[gmsol_competition::states::PARTICIPANT_SEED, competition.as_ref(), trader.as_ref()], &gmsol_competition::ID).0
+}
+fn probe_id() -> Pubkey {
+    key("probe-program")
+}
+/// the instruction buffered in the timelock worlds: probe(wallet signer+writable, x writable), data
+fn tl_shape(e: &Env) -> (Vec<(Pubkey, bool, bool)>, Vec<u8>) {
+    let wallet = tl_wallet(&tl_executor(&e.store, "MARKET_KEEPER"));
+    (vec![(wallet, true, true), (key("probe-acc-x"), false, true)], vec![9, 9, 9])
+}
+fn ix_tl_create(e: &Env, authority: Pubkey, buffer: Pubkey) -> Instruction {
+    let (metas, data) = tl_shape(e);
+    let mut ix = st::ix_for(
+        gmsol_timelock::ID,
+        gmsol_timelock::accounts::CreateInstructionBuffer {
+            authority,
+            store: e.store,
+            executor: tl_executor(&e.store, "MARKET_KEEPER"),
+            instruction_buffer: buffer,
+            instruction_program: probe_id(),
+            store_program: gmsol_store::ID,
+            system_program: system_program::ID,
+        },
+        gmsol_timelock::instruction::CreateInstructionBuffer {
+            num_accounts: metas.len() as u16,
+            data_len: data.len() as u16,
+            data,
+            signers: metas.iter().enumerate().filter(|(_, m)| m.1).map(|(i, _)| i as u16).collect(),
+        },
+    );
+    for (k, _s, wr) in &metas {
+        ix.accounts.push(anchor_lang::solana_program::instruction::AccountMeta { pubkey: *k, is_signer: false, is_writable: *wr });
+    }
+    ix
+}
+
+fn extra_worlds(e: &Env, worlds: &mut HashMap<&'static str, World>, classes: &[(String, Pubkey)], creator: Pubkey) {
+    use gmsol_store::accounts as A;
+    use gmsol_store::instruction as I;
+    let store = e.store;
+    let sys = system_program::ID;
+    let base = worlds["base"].clone();
+    // ---- GT: u1 holds GT, a vault of the current window exists; then a request; then the vault confirmed
+    {
+        let mut x = base.clone();
+        let gtc = key(&format!("signer-{}", RoleKey::GT_CONTROLLER));
+        must(
+            "mint_gt_reward",
+            x.execute(
+                &st::ix(
+                    A::MintGtReward { authority: gtc, store, user: st::user_pda(&store, &e.u1), event_authority: st::event_authority(&gmsol_store::ID), program: gmsol_store::ID },
+                    I::MintGtReward { amount: 1_000_000 },
+                ),
+                &[gtc],
+            ),
+        );
+        let (vault, idx) = gt_vault(&x, &store);
+        must(
+            "prepare_gt_exchange_vault",
+            x.execute(&st::ix(A::PrepareGtExchangeVault { payer: creator, store, vault, system_program: sys }, I::PrepareGtExchangeVault { time_window_index: idx }), &[creator]),
+        );
+        worlds.insert("gt", x.clone());
+        must(
+            "request_gt_exchange",
+            x.execute(
+                &st::ix(
+                    A::RequestGtExchange {
+                        owner: e.u1,
+                        store,
+                        user: st::user_pda(&store, &e.u1),
+                        vault,
+                        exchange: gt_exchange(&vault, &e.u1),
+                        system_program: sys,
+                        event_authority: st::event_authority(&gmsol_store::ID),
+                        program: gmsol_store::ID,
+                    },
+                    I::RequestGtExchange { amount: 1_000 },
+                ),
+                &[e.u1],
+            ),
+        );
+        let s: Store = x.account_data(&store).unwrap();
+        let window = s.gt().exchange_time_window() as i64;
+        x.advance_clock(window + 1, 10);
+        worlds.insert("gt_requested", x.clone());
+        let r = x.execute(
+            &st::ix(
+                A::ConfirmGtExchangeVault { authority: gtc, store, vault, event_authority: st::event_authority(&gmsol_store::ID), program: gmsol_store::ID },
+                I::ConfirmGtExchangeVaultV2 { buyback_value: 0, buyback_price: None },
+            ),
+            &[gtc],
+        );
+        if r.ok {
+            worlds.insert("gt_confirmed", x);
+        } else {
+            eprintln!("note: confirm_gt_exchange_vault_v2 set-up failed: {}", r.err_name);
+        }
+    }
+    // ---- treasury on top of the GT world: vault config with tokens, GT bank, funded vaults
+    if let Some(g) = worlds.get("gt").cloned() {
+        use gmsol_treasury::accounts as TA;
+        use gmsol_treasury::instruction as TI;
+        let tid = gmsol_treasury::ID;
+        let mut x = g;
+        let config = treasury_config(&store);
+        let tadmin = key(&format!("signer-{}", gmsol_treasury::roles::TREASURY_ADMIN));
+        let tkeeper = key(&format!("signer-{}", gmsol_treasury::roles::TREASURY_KEEPER));
+        must("transfer_receiver -> treasury", x.execute(&ix_transfer_receiver(e, e.admin, treasury_receiver(&config)), &[e.admin]));
+        must("treasury initialize_config", x.execute(&ix_treasury_init_config(e, creator), &[creator]));
+        let tvc = treasury_vault_config(&config, 0);
+        must(
+            "initialize_treasury_vault_config",
+            x.execute(
+                &st::ix_for(
+                    tid,
+                    TA::InitializeTreasuryVaultConfig { authority: tadmin, store, config, treasury_vault_config: tvc, store_program: gmsol_store::ID, system_program: sys },
+                    TI::InitializeTreasuryVaultConfig { index: 0 },
+                ),
+                &[tadmin],
+            ),
+        );
+        must(
+            "insert_token",
+            x.execute(
+                &st::ix_for(
+                    tid,
+                    TA::InsertTokenToTreasuryVault { authority: tadmin, store, config, treasury_vault_config: tvc, token: e.mint_x, store_program: gmsol_store::ID },
+                    TI::InsertTokenToTreasuryVault {},
+                ),
+                &[tadmin],
+            ),
+        );
+        for flag in ["allow_deposit", "allow_withdrawal"] {
+            must(
+                "toggle_token_flag",
+                x.execute(
+                    &st::ix_for(
+                        tid,
+                        TA::ToggleTokenFlag { authority: tadmin, store, config, treasury_vault_config: tvc, token: e.mint_x, store_program: gmsol_store::ID },
+                        TI::ToggleTokenFlag { flag: flag.into(), value: true },
+                    ),
+                    &[tadmin],
+                ),
+            );
+        }
+        worlds.insert("trs_unset", x.clone());
+        must(
+            "set_treasury_vault_config",
+            x.execute(
+                &st::ix_for(
+                    tid,
+                    TA::SetTreasuryVaultConfig { authority: tadmin, store, config, treasury_vault_config: tvc, store_program: gmsol_store::ID },
+                    TI::SetTreasuryVaultConfig {},
+                ),
+                &[tadmin],
+            ),
+        );
+        // token accounts of the treasury vault / receiver, funded
+        for owner in [tvc, treasury_receiver(&config)] {
+            let (ata, r) = spl::create_ata(&mut x, &creator, &owner, &e.mint_x);
+            must("treasury ata", r);
+            must("mint_to", spl::mint_to(&mut x, &e.mint_x, &ata, &creator, 1_000_000));
+        }
+        for (_, k) in classes {
+            let _ = spl::create_ata(&mut x, &creator, k, &e.mint_x);
+        }
+        worlds.insert("trs", x.clone());
+        let (vault, _) = gt_vault(&x, &store);
+        let bank = gt_bank(&tvc, &vault);
+        let r = x.execute(
+            &st::ix_for(
+                tid,
+                TA::PrepareGtBank { authority: tkeeper, store, config, treasury_vault_config: tvc, gt_exchange_vault: vault, gt_bank: bank, store_program: gmsol_store::ID, system_program: sys },
+                TI::PrepareGtBank {},
+            ),
+            &[tkeeper],
+        );
+        if r.ok {
+            must("gt bank ata", spl::create_ata(&mut x, &creator, &bank, &e.mint_x).1);
+            worlds.insert("trs_bank", x);
+        } else {
+            eprintln!("note: prepare_gt_bank set-up failed: {}", r.err_name);
+        }
+    }
+    // ---- virtual inventories joined / disabled
+    {
+        let mut x = base.clone();
+        must(
+            "join vi swaps",
+            x.execute(
+                &st::ix(
+                    A::JoinVirtualInventoryForSwaps { authority: creator, store, token_map: e.m.token_map, virtual_inventory: vi_swaps(&store, 0), market: e.m.market },
+                    I::JoinVirtualInventoryForSwaps {},
+                ),
+                &[creator],
+            ),
+        );
+        worlds.insert("vi_joined", x.clone());
+        must(
+            "disable vi",
+            x.execute(&st::ix(A::DisableVirtualInventory { authority: creator, store, virtual_inventory: vi_swaps(&store, 0) }, I::DisableVirtualInventory {}), &[creator]),
+        );
+        worlds.insert("vi_disabled", x);
+        let mut y = base.clone();
+        must(
+            "create vi positions",
+            y.execute(
+                &st::ix(
+                    A::CreateVirtualInventoryForPositions {
+                        authority: creator,
+                        store,
+                        index_token: e.m.index_mint,
+                        virtual_inventory: vi_positions(&store, &e.m.index_mint),
+                        system_program: sys,
+                    },
+                    I::CreateVirtualInventoryForPositions {},
+                ),
+                &[creator],
+            ),
+        );
+        worlds.insert("vip", y.clone());
+        must(
+            "join vi positions",
+            y.execute(
+                &st::ix(
+                    A::JoinOrLeaveVirtualInventoryForPositions { authority: creator, store, virtual_inventory: vi_positions(&store, &e.m.index_mint), market: e.m.market },
+                    I::JoinVirtualInventoryForPositions {},
+                ),
+                &[creator],
+            ),
+        );
+        worlds.insert("vip_joined", y);
+    }
+    // ---- timelock: MARKET_KEEPER executor, probe program, a created and an approved buffer
+    if let Some(t) = worlds.get("timelock").cloned() {
+        let mut x = t;
+        let boot = key("tl-boot");
+        x.register_program(probe_id(), std::rc::Rc::new(|_p: &Pubkey, _a: &'static [anchor_lang::prelude::AccountInfo<'static>], _d: &[u8]| Ok(())));
+        must("initialize_executor MK", x.execute(&ix_tl_init_executor(e, boot, "MARKET_KEEPER"), &[boot]));
+        let wallet = tl_wallet(&tl_executor(&store, "MARKET_KEEPER"));
+        x.airdrop(&wallet, 1_000_000_000);
+        x.airdrop(&key("probe-acc-x"), 1_000_000);
+        worlds.insert("timelock", x.clone());
+        let buffer = key("tl-buffer");
+        must("create_instruction_buffer", x.execute(&ix_tl_create(e, boot, buffer), &[boot, buffer]));
+        worlds.insert("tl_created", x.clone());
+        let approver = key(&format!("signer-{}", gmsol_timelock::roles::TIMELOCKED_MARKET_KEEPER));
+        must(
+            "approve_instruction",
+            x.execute(
+                &st::ix_for(
+                    gmsol_timelock::ID,
+                    gmsol_timelock::accounts::ApproveInstruction {
+                        authority: approver,
+                        store,
+                        executor: tl_executor(&store, "MARKET_KEEPER"),
+                        instruction: buffer,
+                        store_program: gmsol_store::ID,
+                    },
+                    gmsol_timelock::instruction::ApproveInstruction { role: "MARKET_KEEPER".into() },
+                ),
+                &[approver],
+            ),
+        );
+        x.advance_clock(100_000, 100);
+        worlds.insert("tl_approved", x);
+    }
+    // ---- liquidity provider: global state owned by lp-owner; a pending authority; a controller
+    {
+        let lid = gmsol_liquidity_provider::ID;
+        let (owner, next) = (key("lp-owner"), key("lp-next"));
+        let mut x = base.clone();
+        x.airdrop(&owner, 1_000_000_000_000);
+        x.airdrop(&next, 1_000_000_000_000);
+        let r = x.execute(
+            &st::ix_for(
+                lid,
+                gmsol_liquidity_provider::accounts::Initialize { global_state: lp_global(), authority: owner, system_program: sys },
+                gmsol_liquidity_provider::instruction::Initialize { min_stake_value: 1, initial_apy: 0 },
+            ),
+            &[owner],
+        );
+        if r.ok {
+            worlds.insert("lp", x.clone());
+            let mut y = x.clone();
+            must(
+                "lp transfer_authority",
+                y.execute(
+                    &st::ix_for(
+                        lid,
+                        gmsol_liquidity_provider::accounts::TransferAuthority { global_state: lp_global(), authority: owner },
+                        gmsol_liquidity_provider::instruction::TransferAuthority { new_authority: next },
+                    ),
+                    &[owner],
+                ),
+            );
+            worlds.insert("lp_pending", y);
+            let r = x.execute(
+                &st::ix_for(
+                    lid,
+                    gmsol_liquidity_provider::accounts::CreateLpTokenController {
+                        global_state: lp_global(),
+                        controller: lp_controller(&e.m.market_token_mint, 0),
+                        authority: owner,
+                        system_program: sys,
+                    },
+                    gmsol_liquidity_provider::instruction::CreateLpTokenController { lp_token_mint: e.m.market_token_mint, controller_index: 0 },
+                ),
+                &[owner],
+            );
+            if r.ok {
+                worlds.insert("lp_ctrl", x);
+            } else {
+                eprintln!("note: create_lp_token_controller set-up failed: {}", r.err_name);
+            }
+        } else {
+            eprintln!("note: liquidity-provider initialize set-up failed: {}", r.err_name);
+        }
+    }
+    // ---- competition: a competition that has not started yet, u1 participates
+    {
+        let cid = gmsol_competition::ID;
+        let owner = key("comp-owner");
+        let mut x = base.clone();
+        x.airdrop(&owner, 1_000_000_000_000);
+        let start = x.clock().0 + 1_000;
+        let comp = competition_pda(&owner, start);
+        let r = x.execute(
+            &st::ix_for(
+                cid,
+                gmsol_competition::accounts::InitializeCompetition { payer: owner, competition: comp, system_program: sys },
+                gmsol_competition::instruction::InitializeCompetition {
+                    start_time: start,
+                    end_time: start + 1_000,
+                    volume_threshold: 1,
+                    extension_duration: 1,
+                    extension_cap: 1,
+                    only_count_increase: false,
+                    volume_merge_window: 1,
+                },
+            ),
+            &[owner],
+        );
+        if r.ok {
+            must(
+                "create_participant",
+                x.execute(
+                    &st::ix_for(
+                        cid,
+                        gmsol_competition::accounts::CreateParticipantIdempotent {
+                            payer: owner,
+                            competition: comp,
+                            participant: participant_pda(&comp, &e.u1),
+                            trader: e.u1,
+                            system_program: sys,
+                        },
+                        gmsol_competition::instruction::CreateParticipantIdempotent {},
+                    ),
+                    &[owner],
+                ),
+            );
+            worlds.insert("comp", x);
+        } else {
+            eprintln!("note: initialize_competition set-up failed: {}", r.err_name);
+        }
+    }
+    let _ = classes;
+}
+
+fn extra_cases(v: &mut Vec<Case>, env: &Env) {
+    use gmsol_store::accounts as A;
+    use gmsol_store::instruction as I;
+    let sys = system_program::ID;
+    // ---- read-only getters (open)
+    case!(v, "store.check_admin", "base", None, |e, a| (st::ix(A::CheckRole { authority: a, store: e.store }, I::CheckAdmin {}), vec![]));
+    case!(v, "store.check_role", "base", None, |e, a| (st::ix(A::CheckRole { authority: a, store: e.store }, I::CheckRole { role: RoleKey::ORDER_KEEPER.into() }), vec![]));
+    caser!(v, "store.has_admin", "base", None, |e, w, a| w.execute(&st::ix(A::HasRole { store: e.store }, I::HasAdmin { authority: a }), &[]));
+    caser!(v, "store.has_role", "base", None, |e, w, a| w.execute(&st::ix(A::HasRole { store: e.store }, I::HasRole { authority: a, role: RoleKey::ORDER_KEEPER.into() }), &[]));
+    caser!(v, "store.is_token_config_enabled", "base", None, |e, w, _a| w.execute(&st::ix(A::ReadTokenMap { token_map: e.m.token_map }, I::IsTokenConfigEnabled { token: e.mint_x }), &[]));
+    caser!(v, "store.token_expected_provider", "base", None, |e, w, _a| w.execute(&st::ix(A::ReadTokenMap { token_map: e.m.token_map }, I::TokenExpectedProvider { token: e.mint_x }), &[]));
+    caser!(v, "store.token_feed", "base", None, |e, w, _a| w.execute(&st::ix(A::ReadTokenMap { token_map: e.m.token_map }, I::TokenFeed { token: e.mint_x, provider: 0 }), &[]));
+    caser!(v, "store.token_timestamp_adjustment", "base", None, |e, w, _a| w.execute(
+        &st::ix(A::ReadTokenMap { token_map: e.m.token_map }, I::TokenTimestampAdjustment { token: e.mint_x, provider: 0 }),
+        &[]
+    ));
+    caser!(v, "store.token_name", "base", None, |e, w, _a| w.execute(&st::ix(A::ReadTokenMap { token_map: e.m.token_map }, I::TokenName { token: e.mint_x }), &[]));
+    caser!(v, "store.token_decimals", "base", None, |e, w, _a| w.execute(&st::ix(A::ReadTokenMap { token_map: e.m.token_map }, I::TokenDecimals { token: e.mint_x }), &[]));
+    caser!(v, "store.token_precision", "base", None, |e, w, _a| w.execute(&st::ix(A::ReadTokenMap { token_map: e.m.token_map }, I::TokenPrecision { token: e.mint_x }), &[]));
+    // ---- GT exchange
+    caser!(v, "store.prepare_gt_exchange_vault", "gt_requested", None, |e, w, a| {
+        let (vault, idx) = gt_vault(w, &e.store);
+        w.execute(&st::ix(A::PrepareGtExchangeVault { payer: a, store: e.store, vault, system_program: sys }, I::PrepareGtExchangeVault { time_window_index: idx }), &[a])
+    });
+    caser!(v, "store.request_gt_exchange", "gt", Some(key("u1")), |e, w, a| {
+        let (vault, _) = gt_vault(w, &e.store);
+        w.execute(
+            &st::ix(
+                A::RequestGtExchange {
+                    owner: a,
+                    store: e.store,
+                    user: st::user_pda(&e.store, &e.u1),
+                    vault,
+                    exchange: gt_exchange(&vault, &e.u1),
+                    system_program: sys,
+                    event_authority: st::event_authority(&gmsol_store::ID),
+                    program: gmsol_store::ID,
+                },
+                I::RequestGtExchange { amount: 500 },
+            ),
+            &[a],
+        )
+    });
+    caser!(v, "store.confirm_gt_exchange_vault_v2", "gt_requested", None, |e, w, a| {
+        let base = &e.worlds["gt"];
+        let (vault, _) = gt_vault(base, &e.store);
+        w.execute(
+            &st::ix(
+                A::ConfirmGtExchangeVault { authority: a, store: e.store, vault, event_authority: st::event_authority(&gmsol_store::ID), program: gmsol_store::ID },
+                I::ConfirmGtExchangeVaultV2 { buyback_value: 0, buyback_price: None },
+            ),
+            &[a],
+        )
+    });
+    caser!(v, "store.close_gt_exchange", "gt_confirmed", None, |e, w, a| {
+        let base = &e.worlds["gt"];
+        let (vault, _) = gt_vault(base, &e.store);
+        w.execute(
+            &st::ix(A::CloseGtExchange { authority: a, store: e.store, owner: e.u1, vault, exchange: gt_exchange(&vault, &e.u1) }, I::CloseGtExchange {}),
+            &[a],
+        )
+    });
+    // ---- virtual inventories
+    case!(v, "store.leave_virtual_inventory_for_swaps", "vi_joined", None, |e, a| (
+        st::ix(A::LeaveVirtualInventoryForSwaps { authority: a, store: e.store, virtual_inventory: vi_swaps(&e.store, 0), market: e.m.market }, I::LeaveVirtualInventoryForSwaps {}),
+        vec![]
+    ));
+    case!(v, "store.leave_disabled_virtual_inventory", "vi_disabled", None, |e, a| (
+        st::ix(A::LeaveDisabledVirtualInventory { authority: a, store: e.store, virtual_inventory: vi_swaps(&e.store, 0), market: e.m.market }, I::LeaveDisabledVirtualInventory {}),
+        vec![]
+    ));
+    case!(v, "store.join_virtual_inventory_for_positions", "vip", None, |e, a| (
+        st::ix(
+            A::JoinOrLeaveVirtualInventoryForPositions { authority: a, store: e.store, virtual_inventory: vi_positions(&e.store, &e.m.index_mint), market: e.m.market },
+            I::JoinVirtualInventoryForPositions {}
+        ),
+        vec![]
+    ));
+    case!(v, "store.leave_virtual_inventory_for_positions", "vip_joined", None, |e, a| (
+        st::ix(
+            A::JoinOrLeaveVirtualInventoryForPositions { authority: a, store: e.store, virtual_inventory: vi_positions(&e.store, &e.m.index_mint), market: e.m.market },
+            I::LeaveVirtualInventoryForPositions {}
+        ),
+        vec![]
+    ));
+    // ---- timelock buffers
+    {
+        use gmsol_timelock::accounts as LA;
+        use gmsol_timelock::instruction as LI;
+        let lid = gmsol_timelock::ID;
+        case!(v, "timelock.initialize_executor", "timelock", None, |e, a| (ix_tl_init_executor(e, a, "ORDER_KEEPER"), vec![]));
+        case!(v, "timelock.create_instruction_buffer", "timelock", None, |e, a| {
+            let b = key(&format!("tlbuf-{a}"));
+            (ix_tl_create(e, a, b), vec![b])
+        });
+        case!(v, "timelock.approve_instruction", "tl_created", None, |e, a| (
+            st::ix_for(
+                lid,
+                LA::ApproveInstruction { authority: a, store: e.store, executor: tl_executor(&e.store, "MARKET_KEEPER"), instruction: key("tl-buffer"), store_program: gmsol_store::ID },
+                LI::ApproveInstruction { role: "MARKET_KEEPER".into() }
+            ),
+            vec![]
+        ));
+        case!(v, "timelock.approve_instructions", "tl_created", None, |e, a| {
+            let mut ix = st::ix_for(
+                lid,
+                LA::ApproveInstructions { authority: a, store: e.store, executor: tl_executor(&e.store, "MARKET_KEEPER"), store_program: gmsol_store::ID },
+                LI::ApproveInstructions { role: "MARKET_KEEPER".into() },
+            );
+            ix.accounts.push(anchor_lang::solana_program::instruction::AccountMeta::new(key("tl-buffer"), false));
+            (ix, vec![])
+        });
+        case!(v, "timelock.cancel_instruction", "tl_created", None, |e, a| (
+            st::ix_for(
+                lid,
+                LA::CancelInstruction {
+                    authority: a,
+                    store: e.store,
+                    executor: tl_executor(&e.store, "MARKET_KEEPER"),
+                    rent_receiver: key("tl-boot"),
+                    instruction: key("tl-buffer"),
+                    store_program: gmsol_store::ID
+                },
+                LI::CancelInstruction {}
+            ),
+            vec![]
+        ));
+        case!(v, "timelock.cancel_instructions", "tl_created", None, |e, a| {
+            let mut ix = st::ix_for(
+                lid,
+                LA::CancelInstructions { authority: a, store: e.store, executor: tl_executor(&e.store, "MARKET_KEEPER"), rent_receiver: key("tl-boot"), store_program: gmsol_store::ID },
+                LI::CancelInstructions {},
+            );
+            ix.accounts.push(anchor_lang::solana_program::instruction::AccountMeta::new(key("tl-buffer"), false));
+            (ix, vec![])
+        });
+        case!(v, "timelock.execute_instruction", "tl_approved", None, |e, a| {
+            let ex = tl_executor(&e.store, "MARKET_KEEPER");
+            let mut ix = st::ix_for(
+                lid,
+                LA::ExecuteInstruction {
+                    authority: a,
+                    store: e.store,
+                    timelock_config: tl_config(&e.store),
+                    executor: ex,
+                    wallet: tl_wallet(&ex),
+                    rent_receiver: key("tl-boot"),
+                    instruction: key("tl-buffer"),
+                    store_program: gmsol_store::ID,
+                },
+                LI::ExecuteInstruction {},
+            );
+            for (k, _s, wr) in tl_shape(e).0 {
+                ix.accounts.push(anchor_lang::solana_program::instruction::AccountMeta { pubkey: k, is_signer: false, is_writable: wr });
+            }
+            ix.accounts.push(anchor_lang::solana_program::instruction::AccountMeta::new_readonly(probe_id(), false));
+            (ix, vec![])
+        });
+        case!(v, "timelock.revoke_role", "timelock", None, |e, a| {
+            let ex = tl_executor(&e.store, "ADMIN");
+            (
+                st::ix_for(
+                    lid,
+                    LA::RevokeRole {
+                        authority: a,
+                        store: e.store,
+                        executor: ex,
+                        wallet: tl_wallet(&ex),
+                        user: key(&format!("signer-{}", RoleKey::PRICE_KEEPER)),
+                        store_program: gmsol_store::ID,
+                    },
+                    LI::RevokeRole { role: RoleKey::PRICE_KEEPER.into() },
+                ),
+                vec![],
+            )
+        });
+        case!(v, "timelock.set_expected_price_provider", "timelock", None, |e, a| {
+            let ex = tl_executor(&e.store, "MARKET_KEEPER");
+            (
+                st::ix_for(
+                    lid,
+                    LA::SetExpectedPriceProvider {
+                        authority: a,
+                        store: e.store,
+                        token_map: e.m.token_map,
+                        executor: ex,
+                        wallet: tl_wallet(&ex),
+                        token: e.mint_x,
+                        store_program: gmsol_store::ID,
+                        system_program: system_program::ID,
+                    },
+                    LI::SetExpectedPriceProvider { new_expected_price_provider: 1 },
+                ),
+                vec![],
+            )
+        });
+    }
+    // ---- treasury vault administration
+    {
+        use gmsol_treasury::accounts as TA;
+        use gmsol_treasury::instruction as TI;
+        let tid = gmsol_treasury::ID;
+        case!(v, "treasury.initialize_config", "treasury_pre", None, |e, a| (ix_treasury_init_config(e, a), vec![]));
+        case!(v, "treasury.set_treasury_vault_config", "trs_unset", None, |e, a| {
+            let config = treasury_config(&e.store);
+            (
+                st::ix_for(
+                    tid,
+                    TA::SetTreasuryVaultConfig { authority: a, store: e.store, config, treasury_vault_config: treasury_vault_config(&config, 0), store_program: gmsol_store::ID },
+                    TI::SetTreasuryVaultConfig {},
+                ),
+                vec![],
+            )
+        });
+        case!(v, "treasury.insert_token_to_treasury_vault", "trs", None, |e, a| {
+            let config = treasury_config(&e.store);
+            (
+                st::ix_for(
+                    tid,
+                    TA::InsertTokenToTreasuryVault {
+                        authority: a,
+                        store: e.store,
+                        config,
+                        treasury_vault_config: treasury_vault_config(&config, 0),
+                        token: e.mint_y,
+                        store_program: gmsol_store::ID,
+                    },
+                    TI::InsertTokenToTreasuryVault {},
+                ),
+                vec![],
+            )
+        });
+        case!(v, "treasury.remove_token_from_treasury_vault", "trs", None, |e, a| {
+            let config = treasury_config(&e.store);
+            (
+                st::ix_for(
+                    tid,
+                    TA::RemoveTokenFromTreasuryVault {
+                        authority: a,
+                        store: e.store,
+                        config,
+                        treasury_vault_config: treasury_vault_config(&config, 0),
+                        token: e.mint_x,
+                        store_program: gmsol_store::ID,
+                    },
+                    TI::RemoveTokenFromTreasuryVault {},
+                ),
+                vec![],
+            )
+        });
+        case!(v, "treasury.toggle_token_flag", "trs", None, |e, a| {
+            let config = treasury_config(&e.store);
+            (
+                st::ix_for(
+                    tid,
+                    TA::ToggleTokenFlag { authority: a, store: e.store, config, treasury_vault_config: treasury_vault_config(&config, 0), token: e.mint_x, store_program: gmsol_store::ID },
+                    TI::ToggleTokenFlag { flag: "allow_deposit".into(), value: false },
+                ),
+                vec![],
+            )
+        });
+        caser!(v, "treasury.prepare_gt_bank", "trs", None, |e, w, a| {
+            let config = treasury_config(&e.store);
+            let tvc = treasury_vault_config(&config, 0);
+            let (vault, _) = gt_vault(w, &e.store);
+            w.execute(
+                &st::ix_for(
+                    tid,
+                    TA::PrepareGtBank {
+                        authority: a,
+                        store: e.store,
+                        config,
+                        treasury_vault_config: tvc,
+                        gt_exchange_vault: vault,
+                        gt_bank: gt_bank(&tvc, &vault),
+                        store_program: gmsol_store::ID,
+                        system_program: system_program::ID,
+                    },
+                    TI::PrepareGtBank {},
+                ),
+                &[a],
+            )
+        });
+        caser!(v, "treasury.withdraw_from_treasury_vault", "trs", None, |e, w, a| {
+            let config = treasury_config(&e.store);
+            let tvc = treasury_vault_config(&config, 0);
+            w.execute(
+                &st::ix_for(
+                    tid,
+                    TA::WithdrawFromTreasuryVault {
+                        authority: a,
+                        store: e.store,
+                        config,
+                        treasury_vault_config: tvc,
+                        token: e.mint_x,
+                        treasury_vault: spl::ata(&tvc, &e.mint_x),
+                        target: spl::ata(&a, &e.mint_x),
+                        store_program: gmsol_store::ID,
+                        token_program: spl_token::ID,
+                    },
+                    TI::WithdrawFromTreasuryVault { amount: 10, decimals: 8 },
+                ),
+                &[a],
+            )
+        });
+        caser!(v, "treasury.deposit_to_treasury_vault", "trs_bank", None, |e, w, a| {
+            let config = treasury_config(&e.store);
+            let tvc = treasury_vault_config(&config, 0);
+            let (vault, _) = gt_vault(w, &e.store);
+            let bank = gt_bank(&tvc, &vault);
+            let receiver = treasury_receiver(&config);
+            w.execute(
+                &st::ix_for(
+                    tid,
+                    TA::DepositToTreasuryVault {
+                        authority: a,
+                        store: e.store,
+                        config,
+                        treasury_vault_config: tvc,
+                        receiver,
+                        gt_exchange_vault: vault,
+                        gt_bank: bank,
+                        token: e.mint_x,
+                        receiver_vault: spl::ata(&receiver, &e.mint_x),
+                        treasury_vault: spl::ata(&tvc, &e.mint_x),
+                        gt_bank_vault: spl::ata(&bank, &e.mint_x),
+                        store_program: gmsol_store::ID,
+                        token_program: spl_token::ID,
+                        associated_token_program: spl_associated_token_account::ID,
+                    },
+                    TI::DepositToTreasuryVault {},
+                ),
+                &[a],
+            )
+        });
+        caser!(v, "treasury.sync_gt_bank_v2", "trs_bank", None, |e, w, a| {
+            let config = treasury_config(&e.store);
+            let tvc = treasury_vault_config(&config, 0);
+            let (vault, _) = gt_vault(w, &e.store);
+            let bank = gt_bank(&tvc, &vault);
+            w.execute(
+                &st::ix_for(
+                    tid,
+                    TA::SyncGtBank {
+                        authority: a,
+                        store: e.store,
+                        config,
+                        treasury_vault_config: tvc,
+                        gt_bank: bank,
+                        token: e.mint_x,
+                        treasury_vault: spl::ata(&tvc, &e.mint_x),
+                        gt_bank_vault: spl::ata(&bank, &e.mint_x),
+                        store_program: gmsol_store::ID,
+                        token_program: spl_token::ID,
+                        associated_token_program: spl_associated_token_account::ID,
+                    },
+                    TI::SyncGtBankV2 {},
+                ),
+                &[a],
+            )
+        });
+        caser!(v, "treasury.claim_fees", "trs", None, |e, w, a| {
+            let config = treasury_config(&e.store);
+            let receiver = treasury_receiver(&config);
+            let mint = e.m.long_mint;
+            w.execute(
+                &st::ix_for(
+                    tid,
+                    TA::ClaimFees {
+                        authority: a,
+                        store: e.store,
+                        config,
+                        receiver,
+                        market: e.m.market,
+                        token: mint,
+                        vault: e.m.long_vault,
+                        receiver_vault: spl::ata(&receiver, &mint),
+                        event_authority: st::event_authority(&gmsol_store::ID),
+                        store_program: gmsol_store::ID,
+                        token_program: spl_token::ID,
+                        associated_token_program: spl_associated_token_account::ID,
+                        system_program: system_program::ID,
+                    },
+                    TI::ClaimFees { min_amount: 0 },
+                ),
+                &[a],
+            )
+        });
+    }
+    // ---- liquidity provider administration (owner = the global state's authority)
+    {
+        use gmsol_liquidity_provider::accounts as PA;
+        use gmsol_liquidity_provider::instruction as PI;
+        let lid = gmsol_liquidity_provider::ID;
+        let owner = Some(key("lp-owner"));
+        case!(v, "liquidity_provider.initialize", "base", None, |_e, a| (
+            st::ix_for(lid, PA::Initialize { global_state: lp_global(), authority: a, system_program: system_program::ID }, PI::Initialize { min_stake_value: 1, initial_apy: 0 }),
+            vec![]
+        ));
+        case!(v, "liquidity_provider.set_claim_enabled", "lp", owner, |_e, a| (
+            st::ix_for(lid, PA::SetClaimEnabled { global_state: lp_global(), authority: a }, PI::SetClaimEnabled { enabled: true }),
+            vec![]
+        ));
+        case!(v, "liquidity_provider.set_pricing_staleness", "lp", owner, |_e, a| (
+            st::ix_for(lid, PA::SetPricingStaleness { global_state: lp_global(), authority: a }, PI::SetPricingStaleness { staleness_seconds: 77 }),
+            vec![]
+        ));
+        case!(v, "liquidity_provider.update_apy_gradient_sparse", "lp", owner, |_e, a| (
+            st::ix_for(lid, PA::UpdateApyGradient { global_state: lp_global(), authority: a }, PI::UpdateApyGradientSparse { bucket_indices: vec![1], apy_values: vec![5] }),
+            vec![]
+        ));
+        case!(v, "liquidity_provider.update_apy_gradient_range", "lp", owner, |_e, a| (
+            st::ix_for(lid, PA::UpdateApyGradient { global_state: lp_global(), authority: a }, PI::UpdateApyGradientRange { start_bucket: 0, end_bucket: 1, apy_values: vec![5, 6] }),
+            vec![]
+        ));
+        case!(v, "liquidity_provider.update_min_stake_value", "lp", owner, |_e, a| (
+            st::ix_for(lid, PA::UpdateMinStakeValue { global_state: lp_global(), authority: a }, PI::UpdateMinStakeValue { new_min_stake_value: 9 }),
+            vec![]
+        ));
+        case!(v, "liquidity_provider.transfer_authority", "lp", owner, |_e, a| (
+            st::ix_for(lid, PA::TransferAuthority { global_state: lp_global(), authority: a }, PI::TransferAuthority { new_authority: key("someone") }),
+            vec![]
+        ));
+        case!(v, "liquidity_provider.accept_authority", "lp_pending", Some(key("lp-next")), |_e, a| (
+            st::ix_for(lid, PA::AcceptAuthority { global_state: lp_global(), pending_authority: a }, PI::AcceptAuthority {}),
+            vec![]
+        ));
+        case!(v, "liquidity_provider.create_lp_token_controller", "lp", owner, |e, a| (
+            st::ix_for(
+                lid,
+                PA::CreateLpTokenController { global_state: lp_global(), controller: lp_controller(&e.mint_x, 3), authority: a, system_program: system_program::ID },
+                PI::CreateLpTokenController { lp_token_mint: e.mint_x, controller_index: 3 }
+            ),
+            vec![]
+        ));
+        case!(v, "liquidity_provider.disable_lp_token_controller", "lp_ctrl", owner, |e, a| (
+            st::ix_for(
+                lid,
+                PA::DisableLpTokenController {
+                    global_state: lp_global(),
+                    controller: lp_controller(&e.m.market_token_mint, 0),
+                    gt_store: e.store,
+                    gt_program: gmsol_store::ID,
+                    authority: a
+                },
+                PI::DisableLpTokenController {}
+            ),
+            vec![]
+        ));
+    }
+    // ---- competition
+    {
+        use gmsol_competition::accounts as CA;
+        use gmsol_competition::instruction as CI;
+        let cid = gmsol_competition::ID;
+        case!(v, "competition.initialize_competition", "base", None, |_e, a| {
+            let start = 1_800_000_000i64;
+            (
+                st::ix_for(
+                    cid,
+                    CA::InitializeCompetition { payer: a, competition: competition_pda(&a, start), system_program: system_program::ID },
+                    CI::InitializeCompetition {
+                        start_time: start,
+                        end_time: start + 1_000,
+                        volume_threshold: 1,
+                        extension_duration: 1,
+                        extension_cap: 1,
+                        only_count_increase: false,
+                        volume_merge_window: 1,
+                    },
+                ),
+                vec![],
+            )
+        });
+        caser!(v, "competition.create_participant_idempotent", "comp", None, |_e, w, a| {
+            let comp = competition_pda(&key("comp-owner"), w.clock().0 + 1_000);
+            w.execute(
+                &st::ix_for(
+                    cid,
+                    CA::CreateParticipantIdempotent { payer: a, competition: comp, participant: participant_pda(&comp, &key("u2")), trader: key("u2"), system_program: system_program::ID },
+                    CI::CreateParticipantIdempotent {},
+                ),
+                &[a],
+            )
+        });
+        caser!(v, "competition.close_participant", "comp", Some(key("u1")), |e, w, a| {
+            let comp = competition_pda(&key("comp-owner"), w.clock().0 + 1_000);
+            w.execute(
+                &st::ix_for(cid, CA::CloseParticipant { trader: a, competition: comp, participant: participant_pda(&comp, &e.u1) }, CI::CloseParticipant {}),
+                &[a],
+            )
+        });
+        // the trade callbacks only accept the store's callback-authority PDA as signer
+        caser!(v, "competition.on_created", "comp", None, |e, w, a| {
+            let comp = competition_pda(&key("comp-owner"), w.clock().0 + 1_000);
+            w.execute(
+                &st::ix_for(
+                    cid,
+                    CA::OnCreated { authority: a, competition: comp, participant: participant_pda(&comp, &e.u1), trader: e.u1, action: key("some-action") },
+                    CI::OnCreated { authority_bump: 255, action_kind: 0, callback_version: 0, extra_account_count: 0 },
+                ),
+                &[a],
+            )
+        });
+        caser!(v, "competition.on_updated", "comp", None, |e, w, a| {
+            let comp = competition_pda(&key("comp-owner"), w.clock().0 + 1_000);
+            w.execute(
+                &st::ix_for(
+                    cid,
+                    CA::OnCallback { authority: a, competition: comp, participant: participant_pda(&comp, &e.u1), trader: e.u1, action: key("some-action") },
+                    CI::OnUpdated { _authority_bump: 255, _action_kind: 0, _callback_version: 0, _extra_account_count: 0 },
+                ),
+                &[a],
+            )
+        });
+        caser!(v, "competition.on_closed", "comp", None, |e, w, a| {
+            let comp = competition_pda(&key("comp-owner"), w.clock().0 + 1_000);
+            w.execute(
+                &st::ix_for(
+                    cid,
+                    CA::OnCallback { authority: a, competition: comp, participant: participant_pda(&comp, &e.u1), trader: e.u1, action: key("some-action") },
+                    CI::OnClosed { _authority_bump: 255, _action_kind: 0, _callback_version: 0, _extra_account_count: 0 },
+                ),
+                &[a],
+            )
+        });
+        caser!(v, "competition.on_executed", "comp", None, |e, w, a| {
+            let comp = competition_pda(&key("comp-owner"), w.clock().0 + 1_000);
+            w.execute(
+                &st::ix_for(
+                    cid,
+                    CA::OnExecuted {
+                        authority: a,
+                        competition: comp,
+                        participant: participant_pda(&comp, &e.u1),
+                        trader: e.u1,
+                        action: key("some-action"),
+                        position: key("some-position"),
+                        trade_event: None,
+                    },
+                    CI::OnExecuted { authority_bump: 255, action_kind: 0, callback_version: 0, success: true, extra_account_count: 0 },
+                ),
+                &[a],
+            )
+        });
+    }
+    let _ = sys;
+}
+
 fn measure(args: &Args) {
     let mut sink = Sink::create(&args.str("out", "trace.ndjson"));
     let env = Env::new();
-    let all = cases(&env);
+    let mut all = cases(&env);
+    extra_cases(&mut all, &env);
+    r2_cases(&mut all, &env);
     let only = args.get("only").map(|s| s.to_string());
     for c in &all {
         if let Some(o) = &only {
@@ -901,11 +2347,11 @@ fn measure(args: &Args) {
         }
         for (label, signer) in &classes {
             let mut w = base.clone();
+            if let Some(p) = &c.prep {
+                p(&env, &mut w, *signer);
+            }
             let d0 = w.digest();
-            let (ix, extra) = (c.build)(&env, *signer);
-            let mut signers = vec![*signer];
-            signers.extend(extra);
-            let r = w.execute(&ix, &signers);
+            let r = (c.run)(&env, &mut w, *signer);
             let db_changed = w.digest() != d0;
             sink.emit(json!({
                 "instr": c.name, "class": label, "ok": r.ok, "err": r.label(), "code": r.err_code.map(|c| c as i64).unwrap_or(-1),
